@@ -6,6 +6,7 @@ import (
 	"os"
 	"strings"
 	"sync"
+	"sync/atomic"
 	"time"
 
 	liberrors "github.com/onosproject/onos-lib-go/pkg/errors"
@@ -37,11 +38,28 @@ func s2RunSteps(c *fw.Case, prop string, p *engine.Profile, steps []engine.Step)
 	defer w.Close()
 	r := &lockedRng{r: c.Rng.Fork("delay")}
 	mode := c.Rng.Intn(3)
-	if mode > 0 || p.PSlowPlugin > 0 || p.PStaleWriter > 0 {
+	preemptBudget := int32(5)
+	if mode > 0 || p.PSlowPlugin > 0 || p.PStaleWriter > 0 || p.PPreempt > 0 {
 		w.SetDelay(func(kind string) {
 			if kind == "plugin.Validate" && p.PSlowPlugin > 0 && r.Intn(100) < p.PSlowPlugin {
 				time.Sleep(time.Duration(5+r.Intn(35)) * time.Millisecond)
 				return
+			}
+			if p.PPreempt > 0 && kind != "watch.deliver" && kind != "plugin.Validate" {
+				// pre-emption at a store-call boundary: a controller task is held at one of its calls until the rest of the
+				// system has completed 1..6 more writes (or 200 ms have passed - that bound only ends the hold, no verdict
+				// depends on it); at most 5 holds per history
+				if t := world.CurrentTask(); t != "" && !strings.HasPrefix(t, "handler:") && atomic.LoadInt32(&preemptBudget) > 0 && r.Intn(1000) < p.PPreempt {
+					if atomic.AddInt32(&preemptBudget, -1) >= 0 {
+						c.Count("controller_tasks_preempted_at_a_call_boundary", 1)
+						c.Distinct("preempted_at", strings.SplitN(t, ":", 2)[0]+"/"+kind)
+						start, need := w.Writes(), int64(1+r.Intn(6))
+						for dl := time.Now().Add(200 * time.Millisecond); w.Writes() < start+need && time.Now().Before(dl); {
+							time.Sleep(500 * time.Microsecond)
+						}
+						return
+					}
+				}
 			}
 			if kind == "cfg.UpdateStatus" && p.PStaleWriter > 0 {
 				// a status writer (election, re-sync bookkeeping) that is pre-empted between its read and its write:
